@@ -250,7 +250,8 @@ func (r *run) createForT() (err error) {
 			d.ConsensusProtocol = "qbft"
 		}
 	})
-	lock, p2pKeys, shares := cluster.NewForT(r.t, c.V, c.T, c.N, c.Seed+1, rand.New(rand.NewSource(int64(c.Seed))), opts...)
+	// NewForT derives node key i from the constant byte (seed+i+1)&0xff; 0x00 and 0xff make ecdsa.GenerateKey spin forever
+	lock, p2pKeys, shares := cluster.NewForT(r.t, c.V, c.T, c.N, c.Seed%200+1, rand.New(rand.NewSource(int64(c.Seed))), opts...)
 	// complete with deposit data (NewForT creates none): signed by the validator's root key recovered from the shares
 	if vn >= 6 {
 		amounts := []eth2p0.Gwei{deposit.DefaultDepositAmount}
@@ -461,7 +462,7 @@ func defView(d cluster.Definition) step {
 	unsigned := true
 	for _, o := range d.Operators {
 		ops = append(ops, o.ENR)
-		if o.Address != "" || len(o.ConfigSignature) > 0 || len(o.ENRSignature) > 0 {
+		if len(o.ConfigSignature) > 0 || len(o.ENRSignature) > 0 {
 			unsigned = false
 		}
 	}
@@ -1076,9 +1077,9 @@ func (r *run) tamper(s step) {
 				inst = append(inst, l)
 			}
 		}
-		if len(inst) == 0 {
-			r.emit(ev) // the leaf does not exist in the file: applied=false
-			return
+		if len(inst) == 0 { // the leaf does not exist in this file (e.g. an empty list): nothing is altered
+			inst = []leaf{{schema: leafName}}
+			kind = "none"
 		}
 		i := 0
 		if sel == "last" {
@@ -1110,7 +1111,7 @@ func (r *run) tamper(s step) {
 		}
 		nv, applied, changed := r.alter(ty, kind, target.val, sib, drv.Str(s["to"]))
 		ev["applied"], ev["changed"], ev["inst"] = applied, changed, pathStr(target.path)
-		if applied {
+		if applied && target.path != nil {
 			setAt(tree, target.path, nv)
 			if sibLeaf != nil {
 				setAt(tree, sibLeaf.path, target.val)
@@ -1204,6 +1205,7 @@ func TestExec(t *testing.T) {
 				}
 			}()
 			r.exec(s)
+			r.emit(step{"ev": "End"})
 		}()
 		_ = filepath.Walk(dir, func(p string, info os.FileInfo, err error) error { // lock files are read-only
 			if err == nil {
